@@ -222,6 +222,21 @@ fn dense_instance(n: usize) -> Instance {
     Instance { name: format!("{n} short patterns <a|b><unique id>! with 0..2 + 1..4 empty groups (dense, irregular first-character transitions)"), cfg: Cfg::single(pats), probes, states }
 }
 
+/// Two long branches whose tails are mirror images of each other (`aa|bb` against `ab|ba`): after
+/// the prefixes the two branches hold states that differ only in which of two target groups a
+/// class leads to. Anything that identifies a state by an order-independent summary of its
+/// transitions merges them.
+fn mirrored_tails_instance(n: usize) -> Instance {
+    let pat = format!("1[ab]{{{n}}}(aa|bb)|2[ab]{{{n}}}(ab|ba)");
+    let body = "ab".repeat(n / 2);
+    let probes = vec![
+        (format!("1{body}aa"), vec![(0, 0, n + 3)]),
+        (format!("2{body}ba"), vec![(0, 0, n + 3)]),
+        (format!("1{body}bb"), vec![(0, 0, n + 3)]),
+    ];
+    Instance { name: format!("1[ab]{{{n}}}(aa|bb)|2[ab]{{{n}}}(ab|ba)"), cfg: Cfg::single(vec![CPat::new(&pat, 0)]), probes, states: 2 * n + 10 }
+}
+
 pub fn run(tier: Tier) -> ! {
     let mut run = Run::new("C17", tier);
     let mut inst: Vec<Instance> = vec![
@@ -242,6 +257,8 @@ pub fn run(tier: Tier) -> ! {
         padded_keywords_instance(300, 12),   // ~  7 000 NFA-level states
         padded_keywords_instance(620, 100),  // ~ 69 000 NFA-level states: beyond 2^16 without a large DFA
         padded_keywords_instance(1400, 40),  // ~ 72 000
+        mirrored_tails_instance(300),
+        mirrored_tails_instance(700),
         dense_instance(1000),
         dense_instance(9_000), // ~ 75 000 NFA-level states, a trie of ~ 20 000 deterministic states
     ];
